@@ -17,6 +17,12 @@ HARNESS(h_splay)
     Tree* t = new Tree();
     unsigned cnt[NKEY]; unsigned total = 0;
     for (unsigned k = 0; k < NKEY; ++k) cnt[k] = 0;
+#ifdef PRE      // concrete prefix script: a run of three equivalent keys (PRE >= 1) and a smaller key on top (PRE >= 2)
+    for (unsigned i = 0; i < 3; ++i) { if (t->insert(1)) { cnt[1]++; total++; } if (!DUP) break; }
+#if PRE >= 2
+    if (t->insert(0)) { cnt[0]++; total++; }
+#endif
+#endif
     for (unsigned step = 0; step < H; ++step) {
         unsigned op = nondet_below(6); uint8_t k = (uint8_t)nondet_below(NKEY); OBS(op * 4 + k);
         switch (op) {
